@@ -45,6 +45,7 @@ pub trait HasChildren: HasContext {
         let id = self.last_child_or_self_id();
         // the order key moves only once the hierarchy / type checks of insert_by_id have accepted the node
         let value = self.insert_by_id(value, None)?;
+        self.context().register(&value);
         value.set_order_after(id);
         Ok(value)
     }
@@ -75,6 +76,7 @@ pub trait HasChildren: HasContext {
         }
         // the order key moves only once the hierarchy / type checks of insert_by_id have accepted the node
         let value = self.insert_by_id(value, Some(id))?;
+        self.context().register(&value);
         value.set_order_before(id);
         Ok(value)
     }
@@ -4090,6 +4092,15 @@ impl Context {
 
     fn node(&self, id: usize) -> Option<Rc<XmlItem>> {
         self.id_map.borrow().get(&id).and_then(|v| v.upgrade())
+    }
+
+    /// Makes the id of `node` resolve to this very handle. A child list owns the handle it was given; when a node is
+    /// moved the handle registered at creation is dropped with the old list entry, so the new one must take its place
+    /// (otherwise the children of a moved element can no longer find their parent).
+    fn register(&self, node: &Rc<XmlItem>) {
+        self.id_map
+            .borrow_mut()
+            .insert(node.id(), Rc::downgrade(node));
     }
 
     fn zero(&self) -> Context {
